@@ -18,17 +18,28 @@
 (* that is the whole difficulty of the format, and what ObjAt / LayerAt state.*)
 (* Generated files keep the object table directly behind the layer header     *)
 (* (offset 52), where the library reads it and where the offset says it is.   *)
-(* Two object types are given records here: position markers (type 5: kind,   *)
-(* two comment offsets) and pop ranges (type 40: kind, positions offset and   *)
-(* count, a float, an index byte).  Layout recalled from Lumina's layer       *)
+(* Four object types are given records here: position markers (type 5), pop   *)
+(* ranges (40), environment sets (13) and exit ranges (41, a trigger box with *)
+(* a zone line behind it).  Layout recalled from Lumina's layer       *)
 (* parser; offline only the library documents it: regression level.           *)
 EXTENDS Assets16
 
 TypeMarker == 5
+TypeEnv == 13
 TypePop == 40
+TypeExit == 41
+\* position marker: kind, two comment offsets
+\* pop range: kind, positions offset and count, a float, an index byte
+\* environment set: asset path offset, bound instance, shape, a flag byte, a priority byte, 2 bytes, a float, an integer, two floats, sound path offset
+\* exit range: a trigger box (shape, 16-bit priority, an enabled byte, 5 bytes), then kind, zone and territory (16 bits each), index,
+\*             destination and return instance, a float, 4 bytes
 ObjData(b, o, type) ==
   IF type = TypeMarker THEN <<U32n(b, o), FromLE(b, o + 4), FromLE(b, o + 8)>>
   ELSE IF type = TypePop THEN <<U32n(b, o), FromLE(b, o + 4), FromLE(b, o + 8), FromLE(b, o + 12), b[o + 17]>>
+  ELSE IF type = TypeEnv THEN <<FromLE(b, o), FromLE(b, o + 4), U32n(b, o + 8), b[o + 13] # 0, b[o + 14], FromLE(b, o + 16), FromLE(b, o + 20),
+                                FromLE(b, o + 24), FromLE(b, o + 28), FromLE(b, o + 32)>>
+  ELSE IF type = TypeExit THEN <<U32n(b, o), I16(b, o + 4), b[o + 7] # 0, U32n(b, o + 12), U16(b, o + 16), U16(b, o + 18), FromLE(b, o + 20),
+                                 FromLE(b, o + 24), FromLE(b, o + 28), FromLE(b, o + 32)>>
   ELSE << >>
 ObjAt(b, o) ==
   LET type == U32n(b, o)
